@@ -26,6 +26,7 @@ macro_rules! consume_handle {
                 None
             }
             Sink::Downcast => Some((h.downcast::<<$C as Cfg>::T>().expect("downcast to the real type failed"), None)),
+            Sink::DowncastUnchecked => Some((unsafe { any_vec::any_value::AnyValueSizeless::downcast_unchecked::<<$C as Cfg>::T>(h) }, None)),
             Sink::DowncastRefThenDrop => {
                 let seen = h.downcast_ref::<<$C as Cfg>::T>().map(|r| r.payload());
                 drop(h);
@@ -221,7 +222,7 @@ impl<C: Cfg> World<C> {
                     self.fail(MON_MODEL, format!("{}:downcast_ref", name), format!("{}: downcast_ref on the handle saw {:?}, Vec model removed {}", name, seen, expected));
                 }
             }
-            (Ok(None), Sink::Typed) | (Ok(None), Sink::Downcast) => {
+            (Ok(None), Sink::Typed) | (Ok(None), Sink::Downcast) | (Ok(None), Sink::DowncastUnchecked) => {
                 self.fail(MON_MODEL, format!("{}:none", name), format!("{} returned nothing although the vector was not empty", name));
             }
             _ => {}
@@ -325,8 +326,9 @@ impl<C: Cfg> World<C> {
 
     /// get/at/get_mut/at_mut, erased and typed, at index `idx` (may be out of range).
     pub fn do_get(&mut self, v: usize, idx: usize, view: u32, tr: &mut String) {
-        const NAMES: [&str; 15] = ["get", "at", "get_mut", "at_mut", "typed.get", "typed.at", "typed.get_mut", "typed.at_mut", "iter.nth", "iter_mut.nth", "iter.skip.next", "iter.nth_back", "iter.next.nth", "iter.next_back^2.nth", "iter_mut.next.nth_back"];
-        let name = NAMES[view as usize % 15];
+        const NV: u32 = 19;
+        const NAMES: [&str; NV as usize] = ["get", "at", "get_mut", "at_mut", "typed.get", "typed.at", "typed.get_mut", "typed.at_mut", "iter.nth", "iter_mut.nth", "iter.skip.next", "iter.nth_back", "iter.next.nth", "iter.next_back^2.nth", "iter_mut.next.nth_back", "downcast_ref_unchecked.get", "downcast_mut_unchecked.get_mut", "get.downcast_ref_unchecked", "get_mut.downcast_mut_unchecked"];
+        let name = NAMES[(view % NV) as usize];
         let _ = write!(tr, "{}(v{}, {})", name, v, idx);
         let len = self.model[v].len();
         let oob = idx >= len;
@@ -336,7 +338,7 @@ impl<C: Cfg> World<C> {
         // observation: (payload via downcast_ref, typeid ok, size ok, bytes decode payload, ptr offset)
         type Obs = Option<(Option<u32>, bool, bool, Option<u32>, usize)>;
         let base = vec.as_bytes().as_ptr() as usize;
-        let r: Result<Obs, Panicked> = call(|| match view % 15 {
+        let r: Result<Obs, Panicked> = call(|| match view % NV {
             0 => vec.get(idx).map(|e| (e.downcast_ref::<C::T>().and_then(|x| x.payload()), e.value_typeid() == tid, any_vec::any_value::AnyValueTypeless::size(&*e) == size, C::T::see(any_vec::any_value::AnyValueTypeless::as_bytes(&*e)).payload, any_vec::any_value::AnyValueSizeless::as_bytes_ptr(&*e) as usize)),
             1 => {
                 let e = vec.at(idx);
@@ -368,6 +370,20 @@ impl<C: Cfg> World<C> {
                 (p, e.value_typeid() == tid, any_vec::any_value::AnyValueTypeless::size(&*e) == size, C::T::see(any_vec::any_value::AnyValueTypeless::as_bytes(&*e)).payload, any_vec::any_value::AnyValueSizeless::as_bytes_ptr(&*e) as usize)
             }),
             10 => vec.iter().skip(idx).next().map(|e| (e.downcast_ref::<C::T>().and_then(|x| x.payload()), e.value_typeid() == tid, any_vec::any_value::AnyValueTypeless::size(&*e) == size, C::T::see(any_vec::any_value::AnyValueTypeless::as_bytes(&*e)).payload, any_vec::any_value::AnyValueSizeless::as_bytes_ptr(&*e) as usize)),
+            // the unchecked downcasts (the type is the right one: they must agree with the checked ones)
+            15 => unsafe { vec.downcast_ref_unchecked::<C::T>() }.get(idx).map(|x| (x.payload(), true, true, x.payload(), x as *const C::T as usize)),
+            16 => unsafe { vec.downcast_mut_unchecked::<C::T>() }.get_mut(idx).map(|x| (x.payload(), true, true, x.payload(), x as *const C::T as usize)),
+            17 => vec.get(idx).map(|e| {
+                let x: &C::T = unsafe { e.downcast_ref_unchecked::<C::T>() };
+                (x.payload(), e.value_typeid() == tid, any_vec::any_value::AnyValueTypeless::size(&*e) == size, x.payload(), x as *const C::T as usize)
+            }),
+            18 => vec.get_mut(idx).map(|mut e| {
+                let (p, a) = {
+                    let x: &mut C::T = unsafe { any_vec::any_value::AnyValueSizelessMut::downcast_mut_unchecked::<C::T>(&mut *e) };
+                    (x.payload(), x as *const C::T as usize)
+                };
+                (p, e.value_typeid() == tid, any_vec::any_value::AnyValueTypeless::size(&*e) == size, p, a)
+            }),
             // element idx reached through an iterator that was already advanced
             12 => {
                 // one item taken from the front, then nth(idx-1)
@@ -403,9 +419,9 @@ impl<C: Cfg> World<C> {
                 vec.iter().nth_back(k).map(|e| (e.downcast_ref::<C::T>().and_then(|x| x.payload()), e.value_typeid() == tid, any_vec::any_value::AnyValueTypeless::size(&*e) == size, C::T::see(any_vec::any_value::AnyValueTypeless::as_bytes(&*e)).payload, any_vec::any_value::AnyValueSizeless::as_bytes_ptr(&*e) as usize))
             }
         });
-        let is_at = view % 15 < 8 && view % 2 == 1;
+        let is_at = view % NV < 8 && view % 2 == 1;
         // through an advanced iterator some in-range elements are no longer reachable
-        let unreachable = match view % 15 {
+        let unreachable = match view % NV {
             13 => idx + 2 >= len && idx < len,
             14 => idx == 0 && len > 0,
             _ => false,
